@@ -124,6 +124,59 @@ def fn_ops(items):
     return {'n': n, 'nt': nt, 'viol': viol, 'samples': samples}
 
 
+def _layout_views(Gs, Ps, N):
+    """Operand lists that are VIEWS / non-default memory layouts of a base list, as the library's own
+    slicing produces them: (name, build(lib objects) -> PauliList, row selection, column selection)."""
+    L = len(Gs)
+    out = []
+    for nm, sl in (('[::2]', slice(None, None, 2)), ('[::-1]', slice(None, None, -1)), ('[1::3]', slice(1, None, 3)),
+                   ('[5:2:-1]', slice(5, 2, -1)), ('[3:9]', slice(3, 9))):
+        out.append((nm, (lambda sl: lambda base: base[sl])(sl), np.arange(L)[sl], None))
+    return out
+
+
+def fn_layouts(items):
+    """item = [N, gi, kind]: rotate_by / transform_by on operands that are strided views (slices of a
+    PauliList / PauliPolynomial as returned by __getitem__), Fortran-ordered arrays, and column-sliced
+    sub-register lists; the result must equal the reference on exactly the selected rows."""
+    n = nt = 0
+    viol = []
+    for N, gi, kind in items:
+        g = ref.all_g(N)[gi]
+        Gs, Ps = group_arrays(N)
+        for p in (0, 2):
+            gen = lib.P(g, p)
+            eg, ep, a = ref_rotate(g, p, Gs, Ps)
+            M = lib.pc.clifford_rotation_map(lib.P(g, p))
+            for op in ('rotate_by', 'transform_by'):
+                for nm, build, rows, _ in _layout_views(Gs, Ps, N):
+                    for cls in ('PauliList', 'PauliPolynomial'):
+                        base = lib.PL(Gs, Ps) if cls == 'PauliList' else lib.POLY(Gs, Ps, np.arange(len(Gs)) + 1.0)
+                        view = build(base)
+                        if op == 'rotate_by':
+                            view.rotate_by(gen)
+                        else:
+                            view.transform_by(M)
+                        n += len(rows)
+                        nt += int(a[rows].sum())
+                        og, opp = np.asarray(view.gs), np.asarray(view.ps) % 4
+                        if og.shape != eg[rows].shape or (og != eg[rows]).any() or (opp != ep[rows]).any():
+                            viol.append(V('C02/layout/%s/%s/view%s' % (op, cls, nm), [N, gi, kind], '%s of the slice %s of the whole-group %s by %s differs from U^dag P U on the selected rows' % (op, nm, cls, ref.g_to_str(g, p))))
+                # Fortran-ordered table and column-sliced sub-register list (first N qubits of an N+1 qubit list)
+                F = lib.pc.PauliList(np.asfortranarray(np.array(Gs, dtype=lib.INT)), np.array(Ps, dtype=lib.INT))
+                big = np.concatenate([np.array(Gs, dtype=lib.INT), np.ones((len(Gs), 2), dtype=lib.INT)], axis=1)
+                Csl = lib.pc.PauliList(big[:, :2 * N], np.array(Ps, dtype=lib.INT))
+                for nm, obj in (('fortran', F), ('column-slice', Csl)):
+                    if op == 'rotate_by':
+                        obj.rotate_by(gen)
+                    else:
+                        obj.transform_by(M)
+                    n += len(Gs)
+                    if (np.asarray(obj.gs) != eg).any() or (np.asarray(obj.ps) % 4 != ep).any():
+                        viol.append(V('C02/layout/%s/PauliList/%s' % (op, nm), [N, gi, kind], '%s of a %s list by %s differs from U^dag P U' % (op, nm, ref.g_to_str(g, p))))
+    return {'n': n, 'nt': nt, 'viol': viol}
+
+
 def fn_mask(items):
     """item = [N, n, mi, pkg]: every generator of n qubits (both signs) through the mi-th mask of
     size n on N qubits; operands = whole N-qubit group.  Untouched columns bit-identical."""
@@ -290,6 +343,8 @@ def legs(tier):
     nb = 204 if tier == "quick" else 4002
     out.append(Leg('states_N3', fn_states_n3, [[nb, lo, lo + 20] for lo in range(0, nb, 20)], chunk=1, exhaustive=False, supplementary=True,
                    bound='%d distinct N=3 tableaux (BFS from constructors, all ranks) x all 128 generators' % nb))
+    out.append(Leg('operand_layouts', fn_layouts, [[N, gi, 'views'] for N in (1, 2) for gi in range(4 ** N)] + [[3, gi, 'views'] for gi in range(0, 64, 1 if tier != 'quick' else 5)], chunk=2,
+                   bound='rotate_by and transform_by(rotation map) on strided views ([::2], [::-1], [1::3], [5:2:-1], [3:9]) of the whole-group PauliList / PauliPolynomial, on Fortran-ordered and column-sliced lists; all generators N<=2 (N=3: %s)' % ('all' if tier != 'quick' else 'every 5th')))
     from .c03 import fn_rotmap
     out.append(Leg('rotation_map_histories', fn_rotmap, [[N, gi] for N in (1, 2, 3) for gi in range(4 ** N)], chunk=4,
                    bound='all Hermitian generators N<=3: clifford_rotation_map(G) vs rotate_by(G) vs U^dag P U on the whole group; history: mutate the returned map in place, request it again'))
